@@ -239,7 +239,13 @@ def byte_accounting(ctx, rule):
         for (_, e, bb) in defs:
             e = strip_ref(e)
             idx = [c for c in walk(e) if c[0] == "call" and re.search(r"Index.*::index$", c[1]) and len(c[2]) == 2]
-            cut = any(strip_ref(c[2][1])[0] == "aggr" and "RangeTo" in strip_ref(c[2][1])[1] and show(strip_ref(c[2][1])[3][0]) == "self.bytes_left" for c in idx)
+            def at_most_left(z):
+                """self.bytes_left, or min(.., self.bytes_left)"""
+                z = strip_ref(z)
+                if show(z) == "self.bytes_left":
+                    return True
+                return z[0] == "call" and re.search(r"(Ord|cmp)::min$", z[1]) is not None and any(show(strip_ref(a_)) == "self.bytes_left" for a_ in z[2])
+            cut = any(strip_ref(c[2][1])[0] == "aggr" and "RangeTo" in strip_ref(c[2][1])[1] and at_most_left(strip_ref(c[2][1])[3][0]) for c in idx)
             if cut:
                 continue
             # the whole block: only where it is known to be shorter than what is left
@@ -261,7 +267,7 @@ def byte_accounting(ctx, rule):
         if a["func"].path != w.path:
             return "written outside BlockWriter::write"
         if v[0] == "bin" and v[1].startswith("Sub") and show(v[2]) == "self.bytes_left":
-            sub = strip_ref(v[3])
+            sub = strip_ref(sl.expand(v[3]))
             if sub[0] == "call" and sub[1].endswith("::len") and strip_ref(sub[2][0])[0] == "var" and strip_ref(sub[2][0])[1] in handed:
                 return None
             return "bytes_left decreases by %s, not by the length of the data handed to the writer" % show(v[3], 60)
